@@ -104,6 +104,9 @@ def prologue (P : Params) (s : State) (block : Nat) (t : TxIn) : Option Nat := p
 /-- The price of the transaction in base-coin terms (after the conversion from the table coin), or the response code. -/
 def basePrice (s : State) (t : TxIn) : M (Except Nat Int) :=
   let price := txPrice s t
+  -- the price comes from the RAW data (before validation): an empty multisend list / a short route under a table whose delta exceeds
+  -- its base gives a negative amount, which must not reach the pool arithmetic (/repo 19af872; before it CheckSwap panicked)
+  if price < 0 then pure (.error 119) else
   if price == 0 then pure (.ok 0) else
   match toBase s price with
   | .error e => throw e
